@@ -1,4 +1,9 @@
-(** C04 is FALSE without the hypothesis "no client is registered under the chain's own name" (observation O7):
+(** (Since fix a9e74e1 — HandleCreateClient refuses the chain's own name — the witnesses below are statements about
+    (i) an INITIAL state that already contains a self-named client (still possible through an imported genesis) and
+    (ii) the PRE-fix code, [exec_prefix] / [run_prefix], where a governance proposal creates it on a fresh chain;
+    [C04_selfclient_refused_on_head] shows that the same history is harmless on HEAD.)
+
+    C04 is FALSE without the hypothesis "no client is registered under the chain's own name" (observation O7):
     witness on the faithful model, replayed on the real code by the harness (fixed case 1 of `-focus c04`, Spec.o7).
     With a (TSS) client stored under chain A's own name, a MsgRecvPacket on A whose packet claims
     SrcChain = A, DstChain = B passes ValidatePacket (src = this chain), is "verified" by that client, and the relay
@@ -40,3 +45,27 @@ Proof.
   split; [vm_compute; reflexivity|]. split; [vm_compute; reflexivity|].
   split; [vm_compute; discriminate | lia].
 Qed.
+
+(** The PRE-fix chain reaches that state from a FRESH chain satisfying every invariant: the governance proposal creating
+    a (TSS) client under the own name is accepted by [register_client_prefix], then the forged receive goes through. *)
+Definition o7_ops4 : list op :=
+  [ (1, ARegisterClient chA 0 true); (2, ARecv (recv_of (pkt x61 x62 7)) cb_ok) ].
+
+Theorem C04_selfclient_reachable_before_fix :
+  inv4 exP exA /\ noself exA /\
+  let s := run_prefix exP exA o7_ops4 in
+  ~ noself s /\ next_seq exP s chA chB = Ok 1 /\ sget (ckey exP (chA, chB, 7)) s <> None /\ ~ (7 < 1 \/ 1 = 0).
+Proof.
+  split; [exact exA_inv4|]. split; [reflexivity|]. cbv zeta.
+  split; [vm_compute; discriminate|]. split; [vm_compute; reflexivity|]. split; [vm_compute; discriminate | lia].
+Qed.
+Print Assumptions C04_selfclient_reachable_before_fix.
+
+(** On HEAD the proposal is refused with the state unchanged, the forged receive finds no client for its claimed
+    source, and the whole history changes nothing. *)
+Theorem C04_selfclient_refused_on_head :
+  step exP exA (1, ARegisterClient chA 0 true) = (exA, false) /\
+  run exP exA o7_ops4 = exA /\ noself (run exP exA o7_ops4) /\
+  sget (ckey exP (chA, chB, 7)) (run exP exA o7_ops4) = None.
+Proof. vm_compute. repeat split; reflexivity. Qed.
+Print Assumptions C04_selfclient_refused_on_head.
